@@ -252,8 +252,14 @@ func annotate(ex execResult) traceOut {
 		}
 		flushTimeouts(sr.mk.t)
 		emitTick(sr.mk.t)
-		out.add(fmt.Sprintf("XQuiet %s %d %s", cw.ZL(sr.mk.lens), sr.mk.gor, cw.B(st.Op == "settle")),
-			fmt.Sprintf("quiet lens=%v goroutines=%d settled=%v", sr.mk.lens, sr.mk.gor, st.Op == "settle"))
+		mode := 0
+		if st.Op == "settle" {
+			mode = 2
+		} else if st.Op == opAdvance && st.S == 0 {
+			mode = 1
+		}
+		out.add(fmt.Sprintf("XQuiet %s %d %d", cw.ZL(sr.mk.lens), sr.mk.gor, mode),
+			fmt.Sprintf("quiet lens=%v goroutines=%d %s", sr.mk.lens, sr.mk.gor, []string{"", "(after advance: no overdue delivery may be left)", "(settled)"}[mode]))
 	}
 	// callbacks after the last marker
 	flushTimeouts(1 << 62)
